@@ -851,8 +851,8 @@ class SymSeq:
         """Python len(): int | SymInt"""
         if self.stripnul:
             raise Unsupported("len() of an rstrip'ed utf-8 field")
-        if self.kind == "bytes" or self.all_ascii():
-            return self.unit_len()
+        if self.kind == "bytes" or all(isinstance(i, Blob) or unit_is_ascii(i) for i in self.items):
+            return self.unit_len()  # blobs are ASCII text by construction
         if self.has_blob():
             raise Unsupported("len() of non-ascii text with blob")
         # count of non-continuation units
